@@ -72,7 +72,7 @@ def check_copydimension(ctx, rule='R-UNLIM'):
     # path-wise (paths.py): the spelling of the branches (if/else, early return, conditional expression, negated test) is immaterial
     from .. import paths as _paths
     from ..unlim import _calls_isunlimited
-    ps = _paths.function_paths(fn)
+    ps = [p_ for p_ in _paths.function_paths(fn) if _paths.expand(p_).feasible]
     flag = next((a.arg for a in fn.args.args if a.arg == 'unlimited'), None)
     if flag is None or len(fn.args.args) < 2:
         raise AnalysisError('construct not understood: copyDimension has no unlimited parameter')
@@ -161,29 +161,60 @@ def check_copydimension(ctx, rule='R-UNLIM'):
 
 
 def check_adddimension(ctx, rule='R-UNLIM'):
+    """path-wise (paths.py): the flag is defined once from the source dimension's isunlimited() (possibly or-ed with the user's
+    list); on every path taken for a true flag the new dimension is unlimited - in memory by setunlimited(True) on the created
+    object, on disk by a None length - however the branches are nested"""
+    from .. import paths as _paths
     mod = ctx.src.mod('pncgen.py')
     fn = mod.func('Pseudo2NetCDF.addDimension')
     where = 'src/PseudoNetCDF/pncgen.py Pseudo2NetCDF.addDimension'
-    defs = [st for st in iter_stmts(fn.body) if isinstance(st, ast.Assign) and any(isinstance(t, ast.Name) and t.id == 'unlim' for t in st.targets)]
-    top = [st for st in fn.body if isinstance(st, ast.If) and norm(st.test) == 'unlim']
-    if not defs or not top:
+    ps = [p for p in _paths.function_paths(fn) if p.exit[0] != 'raise' and _paths.expand(p).feasible]
+    creating = [p for p in ps if p.calls(attr='createDimension')]
+    # the flag: a local tested on the way to a createDimension whose definition calls isunlimited()
+    flags = set()
+    for p in creating:
+        for e, pol in p.conds:
+            if isinstance(e, ast.Name):
+                flags.add(e.id)
+    defs = [st for st in iter_stmts(fn.body) if isinstance(st, ast.Assign) and any(isinstance(t, ast.Name) and t.id in flags for t in st.targets)
+            and ('isunlimited' in norm(st.value) or any(isinstance(t, ast.Name) and t.id in flags for t in st.targets))]
+    defs = [st for st in defs if any(isinstance(t, ast.Name) and t.id in flags for t in st.targets)]
+    flagdefs = [st for st in defs if 'isunlimited' in norm(st.value)]
+    if not flagdefs or not creating:
         raise AnalysisError('construct not understood: Pseudo2NetCDF.addDimension')
-    if len(defs) == 1 and 'v.isunlimited()' in norm(defs[0].value) and norm(defs[0].value).count(' and ') == 0:
-        ctx.ok(rule, 'addDimension: flag source', where, norm(defs[0])[:80])
+    flag = [t.id for t in flagdefs[0].targets if isinstance(t, ast.Name)][0]
+    alldefs = [st for st in iter_stmts(fn.body) if isinstance(st, (ast.Assign, ast.AugAssign)) and
+               any(isinstance(t, ast.Name) and t.id == flag for t in (st.targets if isinstance(st, ast.Assign) else [st.target]))]
+    if len(alldefs) == 1 and U._calls_isunlimited(alldefs[0].value) and norm(alldefs[0].value).count(' and ') == 0:
+        ctx.ok(rule, 'addDimension: flag source', where, norm(alldefs[0])[:80])
     else:
-        bad = defs[1] if len(defs) > 1 else defs[0]
+        bad = alldefs[1] if len(alldefs) > 1 else alldefs[0]
         ctx.violation(Finding(rule, 'pncgen.py', 'Pseudo2NetCDF.addDimension', bad,
                               'the unlimited flag of the source dimension is overridden/narrowed before the dimension is created: '
                               'an unlimited dimension can be written as a fixed one'), oid='flag source')
-    t = top[0]
-    a = ' ; '.join(norm(s) for s in iter_stmts(t.body))
-    ok_branch = 'createDimension(d, None)' in a and 'setunlimited(True)' in a
-    # every path of the true branch creates an unlimited dimension
-    inner = [s for s in t.body if isinstance(s, ast.If)]
-    if ok_branch and inner and inner[0].orelse:
-        ctx.ok(rule, 'addDimension: unlimited branch', where, 'in-memory: setunlimited(True); on disk: createDimension(d, None)')
+    nflag, badp = 0, None
+    for p in creating:
+        if p.polarity(flag) is not True:
+            continue
+        nflag += 1
+        kind = p.decided(lambda e: isinstance(e, ast.Call) and isinstance(e.func, ast.Name) and e.func.id == 'isinstance' and 'PseudoNetCDFFile' in norm(e))
+        inmem = kind[-1][1] if kind else None
+        call, cst = p.calls(attr='createDimension')[-1]
+        length = call.args[1] if len(call.args) > 1 else None
+        bound = [t.id for t in getattr(cst, 'targets', []) if isinstance(t, ast.Name)] if isinstance(cst, ast.Assign) and cst.value is call else []
+        if inmem is True:
+            sus = [c for c, st in p.calls(attr='setunlimited') if (isinstance(c.func.value, ast.Name) and c.func.value.id in bound) or isinstance(c.func.value, ast.Call)]
+            good = bool(sus) and sus[-1].args and ((isinstance(sus[-1].args[0], ast.Constant) and sus[-1].args[0].value is True) or norm(sus[-1].args[0]) == flag)
+        elif inmem is False:
+            good = isinstance(length, ast.Constant) and length.value is None
+        else:
+            good = False
+        if not good:
+            badp = badp or (p, cst)
+    if nflag and badp is None:
+        ctx.ok(rule, 'addDimension: unlimited branch', where, 'in-memory: setunlimited(True); on disk: createDimension(d, None) (%d paths)' % nflag)
     else:
-        ctx.violation(Finding(rule, 'pncgen.py', 'Pseudo2NetCDF.addDimension', t,
+        ctx.violation(Finding(rule, 'pncgen.py', 'Pseudo2NetCDF.addDimension', badp[1] if badp else fn.body[-1],
                               'the unlimited branch does not create an unlimited dimension on every path'), oid='unlimited branch')
 
 
